@@ -854,6 +854,56 @@ func rp2EscapeBounds(w *World) {
 						okSize = true
 					}
 				}
+				// or: the digits are read by a helper of the package called with the constant group
+				// size, whose body allocates make([]rune, <that parameter>) and fills it in a loop
+				if !okSize {
+					for _, st := range cc.Body {
+						ast.Inspect(st, func(y ast.Node) bool {
+							c, ok := y.(*ast.CallExpr)
+							if !ok {
+								return true
+							}
+							f := callee(info, c)
+							if f == nil {
+								return true
+							}
+							d := gDecls[f.Origin()]
+							if d == nil || d.Body == nil {
+								return true
+							}
+							// parameter positions that receive the constant `want`
+							pi := 0
+							for _, fl := range d.Type.Params.List {
+								for _, nm := range fl.Names {
+									if pi < len(c.Args) {
+										if tv, ok := info.Types[c.Args[pi]]; ok && tv.Value != nil {
+											if v, ok := constant.Int64Val(constant.ToInt(tv.Value)); ok && v == want {
+												hasMake, hasLoop := false, false
+												ast.Inspect(d.Body, func(z ast.Node) bool {
+													switch e := z.(type) {
+													case *ast.ForStmt, *ast.RangeStmt:
+														hasLoop = true
+													case *ast.CallExpr:
+														if id, ok := ast.Unparen(e.Fun).(*ast.Ident); ok && id.Name == "make" && len(e.Args) == 2 && render(e.Args[1]) == nm.Name {
+															hasMake = true
+														}
+													}
+													return true
+												})
+												if hasMake && hasLoop {
+													okSize = true
+													loops++
+												}
+											}
+										}
+									}
+									pi++
+								}
+							}
+							return true
+						})
+					}
+				}
 				if okSize && loops >= 1 {
 					w.ok(key, cc.Pos(), fmt.Sprintf("\\%s reads into a buffer of exactly %d hex digits", kind, want))
 				} else {
